@@ -290,6 +290,13 @@ class LLSWorld(World):
                 plan["z"] = codec.enc(np.round(common.randn(g, (n,), k["complex"]), 4))
         if k["xgiven"] == "random":
             plan["x0"] = codec.enc(np.round(common.randn(g, (n,), k["complex"]), 4))
+            # a common warm start: the adjoint reconstruction A^H y (for identity-like A this is
+            # exactly the minimiser of the data term).  Own generator, see above.
+            if not k.get("y_int") and random.Random("lls-x0kind:%d" % seed).random() < 0.3:
+                k["x0kind"] = "adjoint"
+                plan["x0"] = codec.enc(Ad.conj().T @ np.asarray(y, dtype=np.complex128) if k["complex"]
+                                       else np.real(Ad.conj().T @ np.asarray(y, dtype=np.complex128)))
+        k["call_style"] = random.Random("lls-callstyle:%d" % seed).choice(["keyword"] * 5 + ["positional"])
         if k["Gkind"] == "dense":
             q = common.rand_unitary(g, n, k["complex"])
             q2 = common.rand_unitary(g, n, k["complex"])
@@ -557,7 +564,11 @@ class LLSWorld(World):
                 else:
                     opts["P"] = sp.linop.Multiply(plan["A"]["ishape"], pm)
             try:
-                app = sp.app.LinearLeastSquares(Aop, y, **kw, **opts)
+                cargs, ckw = (Aop, y), dict(kw, **opts)
+                if k.get("call_style") == "positional":
+                    cargs, ckw = common.as_positional("LinearLeastSquares", cargs, ckw)
+                    stats["buggify.positional_arguments"] += 1
+                app = sp.app.LinearLeastSquares(*cargs, **ckw)
             except Exception as e:
                 if caused_by_injected_fault(e):
                     stats["probes.operator_fault_in_constructor"] += 1
@@ -820,7 +831,7 @@ class LLSWorld(World):
             k["solver"], eff, plan["A"]["kind"], gk, gkG, lam > 0, z is not None, k["xgiven"], k["P"], k["steps_given"],
             k["accelerate"], k["rho"], k["complex"], k["show_pbar"], plan["twin"], n, bool(plan.get("prev")),
             bool(k.get("z_scalar")), bool(k.get("save_obj")), bool(k.get("views")), k.get("Pkind") if k["P"] else None,
-            "".join(plan.get("pre", [])), k.get("y_int"), (plan.get("G") or {}).get("form"),
+            "".join(plan.get("pre", [])), k.get("y_int"), (plan.get("G") or {}).get("form"), k.get("x0kind"), k.get("call_style"),
             [(f["seam"], f.get("kind", "jump")) for f in plan["faults"]]])
 
     # ---------------------------------------------------------------- shrink
